@@ -103,3 +103,7 @@ def replay(ctx, path):
     ctx.seed = obj.get("seed", ctx.seed)
     ctx.tier = obj.get("tier", ctx.tier)
     return run(ctx)
+
+
+def pregen(ctx):
+    tlschema.write_schema_v()
